@@ -18,6 +18,9 @@ RELAX = {"require_protocol": False, "tld_aware": False, "allow_spaces_in_path": 
 
 
 def run(ctx):
+    ctx.rule("R0", "what counts as a special host (the escape of the tld_aware arm): SPECIAL_HOSTS_RE accepts exactly localhost / dotted quads / colon-bearing hex literals as whole strings")
+    from .common_url import rule_special_hosts, rule_safe_urlsplit
+    rule_special_hosts(ctx, "R0")
     languages(ctx, "R1")
     monotone(ctx, "R2")
     text(ctx, "R3")
@@ -178,7 +181,9 @@ def monotone(ctx, rule):
         if accept(opts, a) != (a["nonempty"] and a["N0"] and (a["TLD"] or a["SPECIAL"])):
             bad = a
             break
-    ctx.ob(rule, "tld-arm-is-valid-tld-or-special-host", bad is None, "is_url(tld_aware=True) is not `pattern and (valid TLD or special host)`: %s" % bad, site, witness="http://a.notatld")
+    ctx.ob(rule, "tld-arm-uses-has_valid_tld", not [e for e in extra if "valid_suffix" in e or "tld" in e.lower()],
+           "is_url(tld_aware=True) consults %s instead of has_valid_tld (the IANA TLD table): '.onion' or a trailing-dot host is accepted" % extra, site, witness="http://3g2upl4pq6kufc4m.onion/")
+    ctx.ob(rule, "tld-arm-is-valid-tld-or-special-host", bad is None and not extra, "is_url(tld_aware=True) is not `pattern and (valid TLD or special host)`: %s" % bad, site, witness="http://a.notatld")
     ctx.require_instances(rule, n, 1000, "truth-table rows")
 
 
